@@ -664,6 +664,11 @@ func (c *Controller) CheckAndSetLastCertificate(candidate *lib.BlockHeader) lib.
 			// exit with error
 			return lib.ErrInvalidLastQuorumCertificate()
 		}
+		// ensure the candidate 'last certificate' is a finalized (commit) certificate: it replaces the stored finality proof
+		if candidate.LastQuorumCertificate.Header == nil || candidate.LastQuorumCertificate.Header.Phase != lib.Phase_PRECOMMIT_VOTE {
+			// exit with error
+			return lib.ErrWrongPhase()
+		}
 		// the synced blocks were already validated during consensus, no need to validate again
 		if !c.Syncing().Load() {
 			// define a convenience variable for the 'root height'
